@@ -40,6 +40,7 @@ extern volatile unsigned long shim_call_seq;
 void shim_reset(void);                 /* free every live tracked block, clear tables, faults and log */
 void shim_evclear(void);
 int  shim_nlive(void);
+int  shim_nleaked(void);     /* live blocks not reachable from the library's static storage (a cache is not a leak) */
 size_t shim_live_bytes(void);
 shim_blk *shim_find(const void *p);    /* live tracked block containing p (interior pointers ok) or NULL */
 shim_blk *shim_find_dead(const void *p);/* most recent dead block containing p */
